@@ -171,6 +171,11 @@ class Prop(BaseProp):
             self.bom_files = getattr(self, "bom_files", 0) + 1
         elif shape < 0.16 and text.endswith("\n"):
             text = text[:-1]                       # no newline at the end of the file
+        elif shape < 0.30:
+            # a file saved with CR LF line ends (CMake reads it like the LF file), with everything else - form feeds, NEL,
+            # U+2028/9 inside arguments and comments - still in it
+            text = text.replace("\n", "\r\n")
+            self.crlf_files = getattr(self, "crlf_files", 0) + 1
         return text, (names, list(self.doc_flags))
 
     def run_case(self, idx, rng):
@@ -213,13 +218,17 @@ class Prop(BaseProp):
             sigs = []
             res.count("large_files", getattr(self, "big_files", 0))
             res.count("files_with_byte_order_mark", getattr(self, "bom_files", 0))
+            res.count("files_with_crlf_line_ends", getattr(self, "crlf_files", 0))
+            self.crlf_files = 0
             self.big_files = 0
             self.bom_files = 0
             for p, text, (names, doc_flags) in files:
                 res.count("programs")
                 wit = {"text": text}
                 ents = [e for e in tr.get(p, []) if e["cmd"].lower() in {n.lower() for n in names}]
-                ref = cmake_lexer.lex(text.lstrip("\ufeff"))
+                crlf = "\r\n" in text
+                text_n = text.replace("\r\n", "\n")      # CMake's input layer reads CR LF as LF
+                ref = cmake_lexer.lex(text_n.lstrip("\ufeff"))
                 refc = {c.line: c for c in ref.commands if c.name.lower() in {n.lower() for n in names}}
                 # validate the two references against each other
                 bad_ref = (not ref.valid) or ref.legacy or rc != 0 and not ents
@@ -231,6 +240,8 @@ class Prop(BaseProp):
                     bad_ref = True
                 if bad_ref:
                     res.count("reference_disagreements")
+                    if "\r\n" in text:
+                        res.count("reference_disagreements_on_crlf_files")
                     res.see("reference_disagreement_samples", (err[-200:] if rc else "") + text[:200])
                     continue
                 if rng.random() < 0.3:
@@ -244,6 +255,8 @@ class Prop(BaseProp):
                     res.count("invalid_files_processed_before_a_valid_one")
                     wit = dict(wit, history="an invalid file was processed before this one in the same process")
                 o, cm = self.cminx_commands(p, res, wit)
+                if "\r\n" in text:
+                    res.count("crlf_files_compared")
                 if cm is None:
                     cls = o.crash_class() or f"exit:{o.exit_code}"
                     if "history" in wit:
@@ -254,7 +267,7 @@ class Prop(BaseProp):
                             cls = "dispatch-namespace-collision"
                     res.violate(cls, f"valid file rejected: {type(o.exc).__name__}: {str(o.exc)[:300]}", wit)
                     continue
-                mine = {ln: (nm, args) for nm, ln, args in cm if nm.lower() in {n.lower() for n in names}}
+                mine = {ln: (nm, [a.replace("\r\n", "\n") for a in args] if crlf else args) for nm, ln, args in cm if nm.lower() in {n.lower() for n in names}}
                 for e in ents:
                     res.count("commands_compared")
                     res.count("disagreements_checked")
@@ -270,7 +283,7 @@ class Prop(BaseProp):
                 if len(mine) != len(ents):
                     res.violate("command-count-differs", f"CMake executed {len(ents)} calls, CMinx sees {len(mine)}", wit)
                 # signature of documented generic commands (third observation point)
-                self.check_signatures(res, o.value, text, ref, names, doc_flags, wit)
+                self.check_signatures(res, o.value, text_n, ref, names, doc_flags, wit)
             res.sig = sig_hash(sorted(set(sigs)))
             res.nontrivial = any(any(k != "identifier" for k in s) for s in sigs)
             if idx % 16 == 0:
